@@ -441,6 +441,14 @@ static int _GD_UpdateAffixes(DIRFILE *D, int index, char *nsin, size_t nsl,
   if (resort)
     qsort(D->entry, D->n_entries, sizeof(gd_entry_t*), _GD_EntryCmp);
 
+  /* Invalidate the field lists: they point into the old names */
+  for (u = 0; u < D->n_entries; ++u) {
+    D->entry[u]->e->fl.value_list_validity = 0;
+    D->entry[u]->e->fl.entry_list_validity = 0;
+  }
+  D->fl.value_list_validity = 0;
+  D->fl.entry_list_validity = 0;
+
   /* Kill the trailing '.', if it's present */
   if (nsl)
     ns[--nsl] = 0;
